@@ -1,6 +1,6 @@
 (* C06 - Lattice fits are the weighted least-squares optimum and affine-covariant. *)
 From Coq Require Import QArith List.
-From BF Require Import Model.Lattice Model.WLS Proofs.WLSP Proofs.AffineP.
+From BF Require Import Model.Lattice Model.WLS Proofs.WLSP Proofs.AffineP Proofs.ComposeP.
 Open Scope Q_scope.
 
 (* for any number of points, indices (integer or not), positions and non-negative weights: the returned parameters
@@ -47,3 +47,9 @@ Theorem C06_exact_lattice_recovered : forall l m0 m1 m2 x0 x1 x2,
   wls_col l = Some (x0, x1, x2) -> m0 == x0 /\ m1 == x1 /\ m2 == x2.
 Proof. exact exact_data_recovered. Qed.
 Print Assumptions C06_exact_lattice_recovered.
+
+(* two-dimensional form: the fitted (zero, a, b) minimise the weighted sum of squared DISTANCES between the positions and zero + i a + j b *)
+Theorem C06_fit_minimises_weighted_squared_distances : forall l zero a b, (forall q, In q l -> 0 <= pw q) ->
+  wls3 l = Some (zero, a, b) -> forall zero' a' b', cost2 zero a b l <= cost2 zero' a' b' l.
+Proof. exact wls3_minimises_weighted_squared_distances. Qed.
+Print Assumptions C06_fit_minimises_weighted_squared_distances.
